@@ -3,6 +3,7 @@ use super::StorageSlice;
 use super::write_ahead_log::WriteAheadLog;
 use super::write_ahead_log::WriteAheadLogRecord;
 use crate::DbError;
+use crate::DbErrorType;
 use std::fs::File;
 use std::fs::OpenOptions;
 use std::io::Read;
@@ -37,6 +38,11 @@ pub struct FileStorage {
 impl FileStorage {
     fn apply_wal_record(file: &mut File, record: WriteAheadLogRecord) -> Result<(), DbError> {
         if record.value.is_empty() {
+            // a truncation record cuts off an append, it never extends the file
+            if file.metadata()?.len() <= record.pos {
+                return Ok(());
+            }
+
             #[cfg(agdb_verif)]
             crate::verif::fs_event(crate::verif::FsEventKind::RecoverySetLen, record.pos, 0);
             file.set_len(record.pos)?;
@@ -122,6 +128,16 @@ impl StorageData for FileStorage {
     }
 
     fn read(&'_ self, pos: u64, value_len: u64) -> Result<StorageSlice<'_>, DbError> {
+        if pos.checked_add(value_len).is_none_or(|end| end > self.len) {
+            return Err(DbError::storage(
+                DbErrorType::OutOfBounds,
+                format!(
+                    "Read of {value_len} bytes at {pos} is out of bounds ({})",
+                    self.len
+                ),
+            ));
+        }
+
         let mut buffer = vec![0_u8; value_len as usize];
 
         if let Ok(_guard) = self.lock.try_lock() {
